@@ -8,7 +8,9 @@ import (
 	"bytes"
 	"encoding/json"
 	"fmt"
+	"runtime"
 	"sort"
+	"sync"
 	"strconv"
 	"strings"
 	"time"
@@ -224,6 +226,10 @@ func step(w []string, line string) string {
 			k := b.MintKey(uint16(u(w[2])), uint16(u(w[3])), uint32(u(w[4])), uint32(u(w[5])), uint8(u(w[6])), tgt, time.Unix(exp, 0))
 			keys[w[1]] = k
 			return vlib.Hex([]byte(k))
+		case "transport":
+			// transport buffered|sync: how the connections attached from now on reach the broker
+			b.Buffered = w[1] == "buffered"
+			return "ok"
 		case "conn":
 			before := map[string]bool{}
 			_, pairs0 := b.Svc.VerifTrie().VerifTrieDump()
@@ -276,6 +282,93 @@ func step(w []string, line string) string {
 				b.Clients[w[1]].Await("puback:")
 			}
 			return collect(false, false, "")
+		case "burst":
+			// burst <hold> <n> <mid0> <key> <channel> <watcher> <client,client,...>: every listed client sends n
+			// SUBSCRIBE/UNSUBSCRIBE pairs for the channel back to back, all at the same time and without waiting
+			// for acknowledgements, so the presence queue (capacity 100) runs full behind its single dispatcher;
+			// with hold=1 the watcher additionally stops reading until the queue is saturated. Every transition
+			// must be reported once, in the order in which its connection made it (the interleaving BETWEEN
+			// connections is free: the notifications are grouped per source connection for the comparison).
+			hold := w[1] == "1"
+			if strings.HasPrefix(w[1], "p") {
+				// few processors: goroutines the broker starts wait in a run queue while the connections'
+				// read loops keep running (a loaded machine)
+				defer runtime.GOMAXPROCS(runtime.GOMAXPROCS(int(u(w[1][1:]))))
+			}
+			n, mid0 := int(u(w[2])), int(u(w[3]))
+			wc := b.Clients[w[6]]
+			names := strings.Split(w[7], ",")
+			if hold {
+				wc.Hold()
+			}
+			var wg sync.WaitGroup
+			for _, nm := range names {
+				c := b.Clients[nm]
+				var buf bytes.Buffer
+				for i := 0; i < n; i++ {
+					(&mqtt.Subscribe{Header: mqtt.Header{QOS: 1}, MessageID: uint16(mid0 + 2*i),
+						Subscriptions: []mqtt.TopicQOSTuple{{Topic: topic(w[4], w[5]), Qos: 0}}}).EncodeTo(&buf)
+					(&mqtt.Unsubscribe{Header: mqtt.Header{QOS: 1}, MessageID: uint16(mid0 + 2*i + 1),
+						Topics: []mqtt.TopicQOSTuple{{Topic: topic(w[4], w[5])}}}).EncodeTo(&buf)
+				}
+				wg.Add(1)
+				go func(c *vbroker.Client, raw []byte) {
+					defer wg.Done()
+					for len(raw) > 0 { // the broker stops reading while its presence queue is full: no write deadline
+						k, err := c.RawConn().Write(raw)
+						if err != nil {
+							return
+						}
+						raw = raw[k:]
+					}
+				}(c, buf.Bytes())
+			}
+			if hold {
+				for i := 0; i < 400; i++ {
+					time.Sleep(500 * time.Microsecond)
+					if b.Svc.VerifPresenceQueued() >= 90 {
+						break
+					}
+				}
+				time.Sleep(2 * time.Millisecond)
+				wc.Release()
+			}
+			wg.Wait()
+			for _, nm := range names {
+				for i := 0; i < 60000 && b.Clients[nm].CountPrefix("unsuback:") < n; i++ {
+					time.Sleep(500 * time.Microsecond)
+				}
+			}
+			out := collect(false, false, "")
+			// group every receiver's notifications by source connection (order of the op line), keeping the
+			// order within a connection
+			rank := func(g string) int {
+				for i, nm := range names {
+					if strings.Contains(g, "who.id="+guids[nm]+",") || strings.Contains(g, "who.id="+guids[nm]+"}") {
+						return i
+					}
+				}
+				return len(names)
+			}
+			parts := strings.Split(out, " ")
+			for pi, part := range parts {
+				k := strings.IndexByte(part, '<')
+				if k < 0 {
+					continue
+				}
+				pk := strings.Split(part[k+1:], "|")
+				first := len(pk)
+				for i, g := range pk {
+					if strings.Contains(g, "event=subscribe") || strings.Contains(g, "event=unsubscribe") {
+						first = i
+						break
+					}
+				}
+				notif := pk[first:]
+				sort.SliceStable(notif, func(a, b int) bool { return rank(notif[a]) < rank(notif[b]) })
+				parts[pi] = part[:k+1] + strings.Join(pk, "|")
+			}
+			return strings.Join(parts, " ")
 		case "link":
 			request(w[1], uint16(u(w[2])), "link", map[string]interface{}{"name": string(vlib.UnHex(w[3])), "key": keyStr(w[4]),
 				"channel": string(vlib.UnHex(w[5])), "subscribe": w[6] == "1"})
